@@ -19,6 +19,8 @@ def part1_result(P, f):
         T = v.cx.call(tails[0][1], v.cx.site(tails[0][0]))
         H, Y = helper_call(P, f, T)
         if H is not None and H.j.get("vis") != "Public" and not H.j.get("reachable"):
+            from ..inline import expand
+            H = expand(P, H)          # private, infallible helpers that no rule names are spliced into the helper as well
             hv = FnView(P, H, {i + 1: a for i, a in enumerate(Y[2])}, (Y[3],))
             return H, hv, ok_values(H, hv)
     return f, v, []
@@ -177,7 +179,7 @@ def run(ctx):
                   "the helper's outgoing values must be the drawn values for the first |H|-1 helpers and zeta_i*s_i minus "
                   "their sum for the last helper, zeta_i = Lagrange(helpers, at repaired identifier, own identifier)",
                   f.loc)
-        reductions(ctx, H.key if H.key in P.fns else f.key, adaptors={"zip": 1}, min_loops=0)
+        reductions(ctx, H.key, adaptors={"zip": 1}, min_loops=0, fn=H, view=hv)
     f = ctx.anchor(RP + "repair_share_part2")
     if f:
         reductions(ctx, f.key, adaptors={}, min_loops=0)
